@@ -16,6 +16,7 @@ Property theorems only (helper lemmas live in `Toq/Proofs/MatrixOps.lean`).
 namespace Toq.C16
 open Toq.MatrixOps Toq.MatrixPreds
 open scoped Toq.MatrixOps
+open scoped ComplexOrder MatrixOrder
 
 /-! ## Part 1 — helper operations -/
 
@@ -212,6 +213,56 @@ theorem normal_yes_iff (A : Mat QI) (m : Rat) :
     normalV A m = .yes ↔ A.r = A.c ∧ ∀ i j, i < A.r → j < A.r →
       sumN A.c (fun k => A.f i k * (A.f j k).conj) = sumN A.r (fun k => (A.f k i).conj * A.f k j) :=
   normalV_yes_iff A m
+
+/-- anti-Hermitian decider (the code asks `is_hermitian(1j * A)`): `yes` iff square and `A = -Aᴴ`. -/
+theorem antiHermitian_yes_iff (A : Mat QI) (m : Rat) :
+    antiHermitianV A m = .yes ↔ A.r = A.c ∧ ∀ i j, i < A.r → j < A.c → A.f i j = -((A.f j i).conj) :=
+  antiHermitianV_yes_iff A m
+
+/-- projection decider (toqito's `is_projection` = its docstring example = idempotent): `yes` iff square and `A·A = A`. -/
+theorem projection_yes_iff (A : Mat QI) (m : Rat) :
+    projectionV A m = .yes ↔ A.r = A.c ∧ ∀ i j, i < A.r → j < A.c → sumN A.c (fun k => A.f i k * A.f k j) = A.f i j :=
+  projectionV_yes_iff A m
+
+/-- commuting decider: `yes` iff `A B - B A = 0` entrywise (operands of the same square size). -/
+theorem commuting_yes_iff (A B : Mat QI) (m : Rat) (hc : A.c = B.c) :
+    commutingV A B m = .yes ↔ ∀ i j, i < A.r → j < B.c →
+      sumN A.c (fun k => A.f i k * B.f k j) - sumN B.c (fun k => B.f i k * A.f k j) = 0 :=
+  commutingV_yes_iff A B m hc
+
+/-- circulant decider: `yes` iff square and every row is the previous row rotated one place to the right. -/
+theorem circulant_yes_iff (A : Mat QI) (m : Rat) :
+    circulantV A m = .yes ↔ A.r = A.c ∧ ∀ i j, i < A.r - 1 → j < A.r → A.f (i + 1) j = A.f i ((j + A.r - 1) % A.r) :=
+  circulantV_yes_iff A m
+
+/-- diagonal decider: `yes` iff square with all off-diagonal entries exactly zero. -/
+theorem diagonal_yes_iff (A : Mat QI) :
+    diagonalV A = .yes ↔ A.r = A.c ∧ ∀ i j, i < A.r → j < A.c → i ≠ j → A.f i j = 0 :=
+  diagonalV_yes_iff A
+
+/-- permutation decider: `yes` iff every entry is 0 or 1 and every row and every column sums to 1. -/
+theorem permutation_yes_iff (A : Mat QI) :
+    permutationV A = .yes ↔ (∀ i j, i < A.r → j < A.c → A.f i j = 0 ∨ A.f i j = 1) ∧
+      (∀ i, i < A.r → sumN A.c (fun j => A.f i j) = 1) ∧ (∀ j, j < A.c → sumN A.r (fun i => A.f i j) = 1) :=
+  permutationV_yes_iff A
+
+/-- non-negative decider: `yes` iff every entry is real and `≥ 0`. -/
+theorem nonnegative_yes_iff (A : Mat QI) :
+    nonnegativeV A = .yes ↔ ∀ i j, i < A.r → j < A.c → (A.f i j).im = 0 ∧ 0 ≤ (A.f i j).re :=
+  nonnegativeV_yes_iff A
+
+/-- **PSD certificate**: if the checker accepts `A = L·diag(D)·Lᴴ` with `D ≥ 0` then the complex matrix
+    denoted by `A` is positive semidefinite (the harness sends one for every `yes` of the definiteness deciders). -/
+theorem psd_certificate_sound {n : Nat} (A L : EMat n n) (D : Fin n → Rat) :
+    psdCertLDL A L D = true → A.toM.PosSemidef :=
+  psdCertLDL_sound A L D
+
+/-- **non-PSD certificate**: if the checker accepts a vector with `xᴴ (A + μ I) x < 0` then `A + μ I` is not
+    positive semidefinite, i.e. `A` has an eigenvalue below `-μ` (sent for every `no` on a Hermitian matrix). -/
+theorem not_psd_certificate_sound {n : Nat} (A : EMat n n) (x : EMat n 1) (μ : Rat) :
+    npsdCert A x μ = true →
+      ¬ (A.toM + (((μ : Rat) : ℝ) : ℂ) • (1 : Matrix (Fin n) (Fin n) ℂ)).PosSemidef :=
+  npsdCert_sound A x μ
 
 /-! ## Part 3 — invariances used by the generators (all sizes, commutative star rings) -/
 
